@@ -61,6 +61,66 @@ def wellformed(b, s):
     return None
 
 
+ZONES18 = ('1A', '1B', '2A', '2B', '3A', '3B-CA', '3B', '3C', '4A', '4B', '4C', '5A', '5B', '5C', '6A', '6B',
+           '7', '8')
+
+
+def selection_by_name(chk, sb):
+    names = []
+    for i in range(16):
+        for j in range(3):
+            names.append((sb[i][j][0].bldtype, sb[i][j][0].builtera))
+    by_label = {}
+    for i in range(16):
+        for j in range(3):
+            for k in range(16):
+                c = sb[i][j][k]
+                by_label[(c.bldtype, c.builtera, c.zonetype)] = c
+
+    def strip(tree):
+        return {k: v for k, v in tree.items() if k not in ('frac', 'fl_area')}
+    bad = n = 0
+    for z in ZONES18:
+        zz = {'1B': '1A', '5C': '5B'}.get(z, z)
+        case = {'zone': z, 'bld': 'all 48 (type, era) labels of the pickle, 1/48 each'}
+        try:
+            with core.quiet():
+                m = U.new_model(nday=1, autosize=False)
+                m.bld = [(t, e, 1.0 / 48) for t, e in names]
+                m.zone = z
+                m.generate()
+        except Exception as e:  # noqa: BLE001
+            bad += 1
+            if bad <= 2:
+                chk.violation('impl-violation', 'selection by name', case=case,
+                              observed='%s: %s' % (type(e).__name__, str(e)[:300]),
+                              expected='every (type, era) label of the shipped library can be requested')
+            continue
+        got = {(b.bldtype, b.builtera): b for b in m.BEM}
+        for t, e in names:
+            n += 1
+            b = got.get((t, e))
+            want = by_label.get((t, e, zz))
+            msg = None
+            if b is None:
+                msg = 'no archetype simulated for %s %s' % (t, e)
+            elif want is None:
+                msg = 'the pickle holds no cell labelled %s %s %s' % (t, e, zz)
+            elif b.zonetype != zz:
+                msg = 'the archetype handed out for %s %s is labelled zone %r' % (t, e, b.zonetype)
+            else:
+                d = first_difference(strip(reftables.canon(b)), strip(reftables.canon(want)))
+                if d:
+                    msg = 'the archetype handed out for %s %s differs from the pickle cell of that label at %s: ' \
+                          '%r vs %r' % (t, e, d[0], d[1], d[2])
+            if msg:
+                bad += 1
+                if bad <= 2:
+                    chk.violation('impl-violation', 'selection by name', case=dict(case, type=t, era=e),
+                                  observed=msg, expected='the archetype labelled (%s, %s, %s)' % (t, e, zz))
+    return bad, n
+
+
 def simulate_one(args):
     repo, i, j, k, epw, month, dtsim = args
     os.environ['UWG_REPO'] = repo
@@ -137,6 +197,53 @@ def run(chk):
                                   'impl': 'live objects', 'model': 'exported rows differ'})
     chk.direct('translator-selfcheck', 40, 40, 'exported rows re-read and compared with live objects '
                '(row order type x era x zone, exact doubles)', mismatches=bad_tr)
+
+    # which matrix position is which archetype: labels in the objects vs ordered constants vs table headers
+    from uwg.utilities import REF_BLDTYPE, REF_BUILTERA, REF_ZONETYPE
+    consts = (tuple(REF_BLDTYPE), tuple(REF_BUILTERA), tuple(REF_ZONETYPE))
+    headers = reftables.table_zone_headers()
+    lab = []
+    for libname, (b_, s_) in (('shipped pickle', (sb, ss)), ('reader output', (rb, rs))):
+        for cell, msg in reftables.label_problems(b_, s_, consts, headers):
+            lab.append((libname, cell, msg))
+    for libname, cell, msg in lab[:2]:
+        chk.violation('impl-violation', 'labels: objects vs REF_* constants vs table headers',
+                      case={'library': libname, 'cell(type, era, zone index)': cell}, observed=msg,
+                      expected='position [i][j][k] holds the archetype labelled REF_BLDTYPE[i], REF_BUILTERA[j], '
+                               'REF_ZONETYPE[k], and column k of every source table is headed REF_ZONETYPE[k]')
+    chk.direct('labels(objects~constants~table headers)', 2 * 768 + len(headers), 2 * 768,
+               'bldtype / builtera / zonetype text of all 768 BEMDef + 768 SchDef of the pickle and of the reader '
+               'output vs the ordered constants REF_BLDTYPE / REF_BUILTERA / REF_ZONETYPE at their matrix '
+               'position, and the `Zone` header row of the 16 source tables vs REF_ZONETYPE (order frozen in '
+               'the pickle and in the tables vs order spelled in utilities.py)', mismatches=len(lab))
+
+    # construction names of the tables vs the names the reader knows; Element objects held by several cells
+    used, known = reftables.table_construction_names()
+    unknown = {('%s %r' % k): v for k, v in used.items() if k[1] not in known[k[0]]}
+    sharing = reftables.element_sharing(sb)
+    chk.measurements['construction_names_in_tables_unknown_to_reader'] = unknown
+    chk.measurements['elements_held_by_several_cells_of_the_pickle'] = [
+        {'role': r, 'cells': n, 'first_cell': c, 'types': t} for r, n, c, t in sharing]
+    if unknown or sharing:
+        chk.notes.append(
+            'FINDING (unchanged tree, recorded - not a verdict; pickle == reader output still holds): the tables '
+            'name constructions the reader does not know (%s; reader knows %s): readDOE.py then falls through its '
+            'if/elif chain and puts the wall / mass / roof OBJECT of the previous loop iteration into the archetype. '
+            'Elements held by more than one cell of the shipped pickle: %s. So no stripmall or warehouse archetype '
+            'carries the wall its table describes, and a stock with two eras of one of these types simulates two '
+            'rows on one wall state (C07, C13 notes)' % (
+                '; '.join('%s in BLD%s' % (k, v) for k, v in sorted(unknown.items())),
+                {k: sorted(v) for k, v in known.items()},
+                '; '.join('%s x%d from cell %s (%s)' % (r, n, c, '+'.join(t)) for r, n, c, t in sharing)))
+
+    # asking by NAME hands out the archetype of that name: every (type, era) of the pickle's own labels in one
+    # stock, generate() under every one of the 18 zone names
+    select_bad, nsel = selection_by_name(chk, sb)
+    chk.direct('selection-by-name(48 archetypes x 18 zone names)', nsel, nsel,
+               'public route: bld = all 48 (type, era) names as the pickle labels them (1/48 each), zone = each of '
+               'the 18 zone names (1B, 5C -> 1A, 5B), generate(): 48 archetypes selected, each equal in every '
+               'attribute (canonical tree, floats bit-exact; frac / fl_area aside) to the pristine pickle cell '
+               'that carries the requested type, era and zone labels', mismatches=select_bad)
 
     # "can be simulated in hot and cold climates": executed, not proved
     if chk.tier == 'quick':
